@@ -100,16 +100,24 @@ class _Patch:
 
 
 def _unwrapped(target):
-    return getattr(target, "__vc_orig__", target)
+    orig = getattr(target, "__vc_orig__", None)
+    if orig is None:
+        orig = prims.ORIG.get(getattr(target, "__name__", ""), target)  # the random wrappers are stubbed by name
+    return orig
 
 
-def _delegation(kernel, module, qualname, owner, attr, make_fake, call, spec, documented, instances_fn):
+def _delegation(kernel, module, qualname, owner, attr, make_fake, call, spec, documented, instances_fn, also=None):
     REC = {}
 
     def wrap(target):
         def f(*arrays, **static):
+            import contextlib
+
             REC.clear()
-            with _Patch(owner, attr, make_fake(REC)):
+            with contextlib.ExitStack() as stack:
+                stack.enter_context(_Patch(owner, attr, make_fake(REC)))
+                for o, a, fk in (also(REC) if also else []):  # sibling routines: a call to one of them is recorded as such
+                    stack.enter_context(_Patch(o, a, fk))
                 out = call(_unwrapped(target), arrays, static)
             ok = documented(REC, arrays, static)
             return out, jnp.asarray(bool(ok))
@@ -263,6 +271,89 @@ def hypot_contract():
                        lambda tier: [_inst("a=(),b=()", [(), ()]), _inst("a=(2,),b=(2,)", [(2,), (2,)]), _inst("a=(2,1),b=(3,)", [(2, 1), (3,)])])
 
 
+def random_contract(which):
+    """``random.{normal, rademacher, split, prng_key}``: the draw / split / key of the documented ``jax.random`` routine
+    for the same key, shape (number of keys, seed) and dtype.  The routine is replaced by the kernel the rest of
+    the verification uses for it (fresh symbols indexed by key and shape), so any other key, shape or routine differs."""
+    import jax.random as owner
+
+    RM = "probdiffeq.backend.random"
+    real = {"normal": owner.normal, "rademacher": owner.rademacher, "split": owner.split, "prng_key": owner.PRNGKey}[which]
+    attr = "PRNGKey" if which == "prng_key" else which
+
+    def stub(*a, **kw):
+        import probdiffeq.backend.random as R
+
+        return getattr(R, which)(*a, **kw)
+
+    def fake_of(name, REC, primary):
+        import probdiffeq.backend.random as R
+
+        real_r = {"normal": owner.normal, "rademacher": owner.rademacher, "split": owner.split, "prng_key": owner.PRNGKey}[name]
+
+        def fake(*a, **kw):
+            REC.setdefault("calls" if primary else "other_routines", []).append((a, dict(kw)))
+            if not prims.MODE.symbolic:
+                return real_r(*a, **kw)
+            st = getattr(R, name)
+            if name in ("normal", "rademacher"):
+                shape = kw.get("shape", a[1] if len(a) > 1 else ())
+                return st(a[0], shape=shape, dtype=jnp.result_type(float))
+            if name == "split":
+                return st(a[0], kw.get("num", a[1] if len(a) > 1 else 2))
+            return st(seed=kw.get("seed", a[0] if a else 0))
+
+        return fake
+
+    def make_fake(REC):
+        return fake_of(which, REC, True)
+
+    def also(REC):
+        return [(owner, "PRNGKey" if n == "prng_key" else n, fake_of(n, REC, False)) for n in ("normal", "rademacher", "split", "prng_key") if n != which]
+
+    def call(t, arrays, static):
+        if which in ("normal", "rademacher"):
+            return t(arrays[0], shape=static["shape"], dtype=jnp.result_type(float))
+        if which == "split":
+            return t(arrays[0], static["num"])
+        return t(seed=static["seed"])
+
+    def spec(arrays, static):
+        if which in ("normal", "rademacher"):
+            return stub(arrays[0], shape=static["shape"], dtype=jnp.result_type(float))
+        if which == "split":
+            return stub(arrays[0], static["num"])
+        return stub(seed=static["seed"])
+
+    def documented(REC, arrays, static):
+        calls = REC.get("calls", [])
+        if len(calls) != 1 or REC.get("other_routines"):
+            return False
+        a, kw = calls[0]
+        if which in ("normal", "rademacher"):
+            shape = kw.get("shape", a[1] if len(a) > 1 else None)
+            dt = kw.get("dtype", a[2] if len(a) > 2 else None)
+            return a[0] is arrays[0] and shape is not None and tuple(shape) == tuple(static["shape"]) and (dt is None or jnp.dtype(dt) == jnp.dtype(jnp.result_type(float)))
+        if which == "split":
+            return a[0] is arrays[0] and kw.get("num", a[1] if len(a) > 1 else 2) == static["num"]
+        return kw.get("seed", a[0] if a else None) == static["seed"]
+
+    def instances(tier):
+        def key_inst(name, **static):
+            def make(rng):
+                return (prims.ORIG["prng_key"](seed=3),), dict(static)
+
+            return Instance(name, make)
+
+        if which in ("normal", "rademacher"):
+            return [key_inst("shape=(2,)", shape=(2,)), key_inst("shape=(2,3)", shape=(2, 3)), key_inst("shape=()", shape=())]
+        if which == "split":
+            return [key_inst("num=2", num=2), key_inst("num=3", num=3)]
+        return [Instance("seed=5", lambda rng: ((), {"seed": 5}))]
+
+    return _delegation(which, RM, which, owner, attr, make_fake, call, spec, documented, instances, also=also)
+
+
 _BY_KERNEL = None
 
 
@@ -272,6 +363,8 @@ def by_kernel():
     if _BY_KERNEL is None:
         _BY_KERNEL = {"lstsq_svd": lstsq_contract(), "qr_r": qr_contract(), "solve_triu": tri_contract(False), "solve_tril": tri_contract(True), "solve_lu": solve_contract(), "hypot": hypot_contract()}
         _BY_KERNEL["lstsq_z"] = _BY_KERNEL["lstsq_svd"]  # ghost witness of the same call
+        for which in ("normal", "rademacher", "split", "prng_key"):
+            _BY_KERNEL[which] = random_contract(which)
     return _BY_KERNEL
 
 
